@@ -2,11 +2,16 @@
 
 package world
 
-import "github.com/ory/fosite/storage"
+import (
+	"time"
+
+	"github.com/ory/fosite/storage"
+)
 
 // The lock-order monitor needs the verif build tag (hook in /repo/storage/memory_mutex_verif.go).
 func LockOrderStart() bool                     { return false }
 func LockOrderRegister(m *storage.MemoryStore) {}
+func LockDelay(d time.Duration)                {}
 func LockOrderReport() (int64, map[string]int64, []string, map[string]string) {
 	return 0, nil, nil, nil
 }
